@@ -300,3 +300,12 @@ Print Assumptions C15_outer_entry_spec.
 Theorem C15_json_args_text_valid : forall entry args, json_string_ok (quoted (args_text entry args)) = true.
 Proof. exact json_args_text_valid. Qed.
 Print Assumptions C15_json_args_text_valid.
+
+(* arguments of other formats in the chrome text: a pointer is printed as `&` + the ESCAPED name of the symbol it
+   points to (fix 767f11d; C15_json_args_text_valid covers it for every name), else as 0 / 0x...; the code as found
+   printed the name raw: *)
+Theorem C15_json_ptr_legacy_refuted :
+  json_string_ok (quoted ([40] ++ ptr_text_legacy [102; 34; 103] ++ [41])) = false
+  /\ json_string_ok (quoted (args_text true [APtr (Some [102; 34; 103]) 4198912])) = true.
+Proof. exact json_ptr_legacy_refuted. Qed.
+Print Assumptions C15_json_ptr_legacy_refuted.
